@@ -181,6 +181,17 @@ CHECKS = {
             'subscribe, notification after one more block). Sampled over a fixed fixture.',
             'fixture uses generation-like transactions; null status on drop not judged.',
             'DESIGN.md §3 C17'),
+    'C06': ('fault_enumeration',
+            'cancellation-point enumeration with gated worker threads: the harness owns the thread '
+            'schedule (jobs park at every storage operation), a tape interleaves overlapping jobs; '
+            'oracle = replay model of the stored chain after executor join and re-open',
+            'For generated scenarios in four sync phases the shutdown is injected at generated '
+            '(thorough: all) scheduler steps, overlapping jobs are interleaved per tape, and the '
+            're-opened database must equal the model to its stored height and contain every block '
+            'completed before the stop. Sampled scenarios / tapes; per-scenario cut points exhaustive '
+            'in the thorough tier.',
+            'storage-operation granularity; LevelDB atomicity; executor join at exit.',
+            'DESIGN.md §3 C06'),
 }
 
 NOT_BUILT = {}
